@@ -1,9 +1,24 @@
 """C02 - Shaping any accepted font with any text is safe, terminating and bounded.  DESIGN.md 4.10 / 5 (C02)."""
-import vlib
+import json, os
+import vlib, corpus
 from checks import engine_common
 
 
+def hooks_are_neutral(ck, tier, seed):
+    """The GRAPHITE2_VERIF hooks only observe: the library compiled with and without the define shapes identically."""
+    tmp = vlib.tmpdir("C02hn")
+    js = corpus.random_jobs(n=40 if tier == "quick" else 400, seed=seed, dirs=[0, 1]) + corpus.collision_jobs(tmp, n=20 if tier == "quick" else 200)
+    js += [dict(j, ppm=14) for j in js[:200]]
+    p = os.path.join(tmp, "jobs.ndjson")
+    open(p, "w").write("\n".join(json.dumps(j) for j in js if "cps" in j) + "\n")
+    same, n = vlib.hook_neutrality(p)
+    if not same:
+        raise vlib.Broken("the library built with -DGRAPHITE2_VERIF shapes differently from the library built without it: a hook is not neutral")
+    ck.extra["hook_neutrality"] = "%d segments identical with and without -DGRAPHITE2_VERIF (public-API dumper, g++ -O1)" % n
+
+
 def run(ck, tier, seed):
+    hooks_are_neutral(ck, tier, seed)
     engine_common.run_engine(ck, tier, seed, pids=("C02",), with_passloop=True)
     ck.assumptions += ["bounded work is decided by the GRAPHITE2_VERIF iteration counter against maxRuleLoop x (slots + insert budget + 2), the formula TLC establishes on PassLoop.tla",
                        "memory safety / UB / leaks: ASan+UBSan+LSan on every executed case (sensors, DESIGN.md 1.4)"]
